@@ -114,8 +114,11 @@ class ADWIN(StreamingDetector):
             raise ValueError("ADWIN should only be used to monitor 1 variable.")
         super().update(X, None, None)
 
-        # the array should have a single element after validation.
-        X = X[0][0]
+        # the array should have a single element after validation. The running
+        # statistics are kept in double precision whatever dtype the observation
+        # arrived in (a numpy integer scalar would wrap around in the running total,
+        # a float32 scalar would drag the arithmetic down to single precision).
+        X = float(X[0][0])
 
         # add new sample to the head of the window
         self._window_size += 1
